@@ -78,10 +78,38 @@ class Repo:
             if fn.endswith('.py'):
                 self._load(fn)
         self._mro_cache = {}
+        if not os.environ.get('BISTAT_NO_INLINE'):
+            self._class_method_aliases()
         self.inlined, self.helpers, self.absorbed = [], [], set()
         if normalise and not os.environ.get('BISTAT_NO_INLINE'):
             from .normal import inline_helpers
             inline_helpers(self)
+
+    def _class_method_aliases(self):
+        """``class C: m = Other.method`` (a plain method of a package class, named through its
+        class): C gets its own copy of that method under the name m"""
+        import copy
+        for ci in list(self.classes.values()):
+            for i, st in enumerate(list(ci.node.body)):
+                if not (isinstance(st, ast.Assign) and len(st.targets) == 1 and isinstance(st.targets[0], ast.Name) and isinstance(st.value, ast.Attribute)
+                        and isinstance(st.value.value, ast.Name)):
+                    continue
+                owner = self.classes.get(st.value.value.id)
+                name = st.targets[0].id
+                if owner is None or st.value.value.id in self.dupes or name in ci.methods:
+                    continue
+                src = owner.methods.get(st.value.attr)
+                if src is None or not isinstance(src.node, ast.FunctionDef) or src.node.decorator_list:
+                    continue
+                m = copy.deepcopy(src.node)
+                m.name = name
+                m._alias_of = '%s.%s' % (owner.name, st.value.attr)
+                ast.copy_location(m, st)
+                ci.node.body[i] = m
+                fi = FuncInfo(ci.module, ci.qual + '.' + name, m, ci)
+                self.functions[fi.id] = fi
+                ci.methods[name] = fi
+                ci.attrs.pop(name, None)
 
     # ------------------------------------------------------------ loading
     def _load(self, fn):
